@@ -63,6 +63,8 @@ def generate(seed, tier, k):
         it2 = {"type": "SolidBody", "umat": {"name": "NeoHookeCompressible", "p": {"mu": round(E2 / 3, 4), "lmbda": round(E2, 4)}}, "density": gen.rfloat(r, 0.5, 8.0) * (1e-9 if density < 1e-6 else 1.0)}
         if r.random() < 0.4:
             it2["multiplier"] = r.choice([0.25, 2.0])
+        if r.random() < 0.25:
+            it2["density"] = 0.0  # a stiffness-only reinforcement on the same field
         doc["items"].append(it2)
         if r.random() < 0.5:
             doc["items"].reverse()
